@@ -375,12 +375,8 @@ def detectXMLEncoding(fp, log=None, includeDefault=True):  # noqa: C901
     if isinstance(head, bytes):
         # binary file object: keeps the byte values for BOM detection
         head = head.decode('latin-1')
-    try:
-        (byte1, byte2, byte3, byte4) = tuple(map(ord, head))
-    except ValueError:
-        # fewer than 4 characters; leave the file where it was
-        fp.seek(oldFP)
-        raise
+    # fewer than 4 characters: no 4-byte BOM, but there may be a shorter one
+    (byte1, byte2, byte3, byte4) = (tuple(map(ord, head)) + (None,) * 4)[:4]
 
     # try bom detection using 4 bytes, 3 bytes, or 2 bytes
     bomDetection = bomDict.get((byte1, byte2, byte3, byte4))
@@ -607,15 +603,19 @@ def getEncodingInfo(response=None, text='', log=None, url=None):  # noqa: C901
         # check if maybe XML or (TODO:) HTML
         texttype = _getTextType(text, log)
 
+    # not enough text (fewer than the 4 characters of the longest BOM): nothing
+    # is concluded about an XML encoding, not even the default
+    sniffable = len(text) >= 4
+
     # XML only served as application/xml ! #(also XHTML served as text/html)
-    if texttype == _XML_APPLICATION_TYPE:  # or texttype == _XML_TEXT_TYPE:
+    if texttype == _XML_APPLICATION_TYPE and sniffable:  # or texttype == _XML_TEXT_TYPE:
         try:
             encinfo.xml_encoding = detectXMLEncoding(text, log)
         except (AttributeError, ValueError):
             encinfo.xml_encoding = None
 
     # XML (also XHTML served as text/html)
-    if texttype == _HTML_TEXT_TYPE:
+    if texttype == _HTML_TEXT_TYPE and sniffable:
         try:
             encinfo.xml_encoding = detectXMLEncoding(text, log, includeDefault=False)
         except (AttributeError, ValueError):
